@@ -8,7 +8,7 @@ CHECKS = {
     engine="cbmc-c", category="model_checking", design_ref="DESIGN.md §5 C12",
     technique="bounded symbolic execution of ec_base.c with CBMC (SAT), operands fully symbolic => exhaustive over the finite domain",
     text="CBMC decides gf_mul==carry-less product mod 0x11D for all 2^16 pairs, a*inv(a)=1 for all a, all 32 entries of gf_vect_mul_init "
-         "for all c, the GFNI matrix table for all (c,s), and the ec_init_tables_{base,gfni} layouts for k,rows<=4; both default and GF_LARGE_TABLES builds. "
+         "for all c, the GFNI matrix table for all (c,s), and the ec_init_tables_{base,gfni} layouts for k,rows<=4; both default and GF_LARGE_TABLES builds, and the portable (non-x86-64) body of gf_vect_mul_init; previous contents of the table buffers symbolic. "
          "The domain is finite and covered completely by the solver, so this is the strongest bounded claim available short of a proof assistant.",
     note="Trusted: cbmc 6.11 front end/SAT back end, spec/gf256.h (8-step shift-xor definition), SDM transcription of GF2P8AFFINEQB. "
          "Field axioms are decided on the specification with a case split on one operand (quick: 6 values, thorough: all 256)."),
@@ -48,7 +48,7 @@ CHECKS = {
  "C04": dict(
     engine="x86sym (gf2-affine) + cbmc-c", category="translation_validation", design_ref="DESIGN.md §5 C04, §4.4",
     technique="symbolic execution of the 40 assembled CRC kernels in a GF(2)-affine term domain (every bit an affine form over all seed and message bits), compared bit by bit with the bit-serial CRC definition; z3 bit-vector queries for the Adler-32 scalar path; CBMC for the table-driven C routines",
-    text="Each CRC kernel is run from its machine code with the seed and all message bits symbolic for every length 0..300 (thorough 0..1200) plus block boundaries and several alignments; the result bits are affine forms whose "
+    text="Each CRC kernel is run from its machine code with the seed and all message bits symbolic for every length 0..300 (thorough 0..1200) plus block boundaries, one length per 24-byte-group count (crc32_iscsi_00/01 folding-constant table) and several alignments; the result bits are affine forms whose "
          "difference from the published-check-value-anchored bit-serial definition must be identically zero; copy forms also reproduce the source. Composition over splits follows from equality with the state-passing definition.",
     note="Trusted: interpreter semantics incl. the affine-domain operations (each case cross-checked against native execution on random assignments), spec/crc_py.py anchors. Adler-32 assembly kernels are decided only on their scalar path "
          "(len < 24/32); their vector path is out of reach (DESIGN). Known finding: crc32_iscsi_00/01 aligned-word tail over-read."),
@@ -57,7 +57,7 @@ CHECKS = {
     technique="access monitor inside the symbolic execution of every assembled leaf kernel (true access width, masked lanes, alignment-faulting forms) against exact caller-declared regions; CBMC pointer checks on the C codec harnesses",
     text="All 125 assembled leaf kernels (zero detect, RAID, erasure code, CRC, Adler) are executed symbolically over a memory-safety sweep (lengths 0,1,every vector-width remainder; buffer starts at odd alignments); every load and store on every feasible path "
          "must fall inside the regions implied by the arguments, violations are replayed natively against a guard page. For all data: the check is decided by the solver-driven path exploration, not sampled.",
-    note="igzip assembly bodies are outside (data-dependent addressing). Known finding: crc32_iscsi_00/01 read up to 7 bytes past the buffer inside one aligned word. Fixed findings: zero-detect avx2/avx512, gf_vect_mul len=0, gf_5vect_dot_prod_avx512_gfni."),
+    note="igzip assembly bodies are outside engine B (data-dependent addressing; isal_deflate_finish_01 and the Huffman decoders are decided on tiny inputs by engine C under C10/C06). Known finding: crc32_iscsi_00/01 read up to 7 bytes past the buffer inside one aligned word. Fixed findings: zero-detect avx2/avx512, gf_vect_mul len=0, gf_5vect_dot_prod_avx512_gfni."),
  "C15": dict(
     engine="x86sym + cbmc-c", category="model_checking", design_ref="DESIGN.md §5 C15",
     technique="symbolic execution of all resolvers with symbolic caller registers and CPUID results: store set, dependency set of the stored pointer, register preservation decided with z3; 2-safety CBMC harnesses for context independence (when present)",
@@ -85,15 +85,15 @@ CHECKS = {
     engine="cbmc-c", category="model_checking", design_ref="DESIGN.md §5b C01",
     technique="CBMC on isal_deflate_stateless / single-call isal_deflate (level 0, portable C kernels) with all input bytes symbolic; independent RFC 1951 reference decoder inside the same formula; literal code lengths made concrete per query (class vectors, completeness proved by OTHER queries)",
     text="For every input of n <= 3 bytes (thorough 4..6), five wrappers, flush modes, default and static tables and avail_out in {bound, bound+8, 64}: the output has an RFC-conformant wrapper header, the reference decoder accepts it, decodes exactly the input, "
-         "consumes it to its last byte, the trailer is CRC-32||ISIZE (LE) resp. Adler-32 (BE), final state ZSTATE_END. Plus the constant-run shortcut of the stateless API (whole input = 8..300 bytes of 0x00/0xFF) over an avail_out sweep.",
+         "consumes it to its last byte, the trailer is CRC-32||ISIZE (LE) resp. Adler-32 (BE), final state ZSTATE_END. Plus the constant-run shortcut of the stateless API (whole input = 8..300 bytes of 0x00/0xFF, every tail-shape boundary of (n-1) mod 258, NO_FLUSH and FULL_FLUSH) over an avail_out sweep.",
     note="Levels 1-3, custom tables, inputs > 6 bytes, and EVERY assembly body are outside (measured: symbolic sizes/longer inputs do not finish). Default-table streaming is decided only for n=0 (dynamic header parse goes symbolic). "
          "Assumptions: per-query literal code-length class vector, swept completely. Trusted: cbmc, spec/rfc1951.h (self-tested against zlib)."),
  "C10": dict(
     engine="cbmc-c + x86sym", category="model_checking", design_ref="DESIGN.md §5b C10",
-    technique="CBMC: avail_out sweep on exact-size output objects for the one-shot API; stored-block fallback with SYMBOLIC n <= 200000 and a range-recording memcpy; parameter validation with fully symbolic level/flush/level_buf_size; symbolic execution (x86sym + z3) of the assembled ICF bit emitters",
+    technique="CBMC: avail_out sweep on exact-size output objects for the one-shot API; stored-block fallback with SYMBOLIC n <= 200000 and a range-recording memcpy; parameter validation with fully symbolic level/flush/level_buf_size; symbolic execution (x86sym + z3) of the assembled ICF bit emitters; the assembly level-0 kernel isal_deflate_finish_01 lifted to C (vlib/x86lift.py) and decided by CBMC for memory safety and accounting",
     text="(a) avail_out 0..bound+9 for n <= 2 (3): COMP_OK whenever avail_out >= n+5*blocks+wrapper, a COMP_OK result is a complete correct stream, no byte written past avail_out, counters consistent. (b) stored fallback for all n <= 200000 symbolically: block count, LEN/NLEN, BFINAL on the last block only, "
          "tiling of the input, total_out formula, no arithmetic wrap; the real stored_len arithmetic at the 65535-byte boundaries. (c) every invalid level/flush/level buffer is rejected with the documented code before any output. "
-         "(d) engine B on the assembly bit emitters encode_deflate_icf_04/06: all stores inside the bit buffer, emitted bits equal the ICF encoding specification for symbolic code bits.",
+         "(d) engine B on the assembly bit emitters encode_deflate_icf_04/06: all stores inside the bit buffer, emitted bits equal the ICF encoding specification for symbolic code bits, incl. every per-lane long-code threshold. (e) engine C on isal_deflate_finish_01: with n <= 3 input bytes and any output space, or n <= 6 and avail_out < 8, every load/store stays inside the input chunk / output window, counters move together.",
     note="Streaming termination is asserted in C07's bounded call loops. Levels 1-3 outside. Doc/code mismatch noted: undersized level_buf returns ISAL_INVALID_LEVEL (documented ISAL_INVALID_LEVEL_BUF); the check accepts either."),
  "C07": dict(
     engine="cbmc-c", category="model_checking", design_ref="DESIGN.md §5b C07",
@@ -102,20 +102,21 @@ CHECKS = {
     note="Decompression side: only trailer/stored/wrapper units (C02, C11, C19) - the streaming Huffman decoder needs the big tables (out of reach). Levels 1-3 outside. Observation (not a violation as worded): SYNC_FLUSH with 2..6-byte output buffers keeps emitting empty blocks (harness/C07/repro_flush_livelock.c)."),
  "C14": dict(
     engine="cbmc-c", category="model_checking", design_ref="DESIGN.md §5b C14",
-    technique="CBMC on the C07 streaming harness with flush requests (two symbolic segments, SYNC/FULL flush, output chunkings) plus the stateless raw FULL_FLUSH append harness; reference decoder run on the prefix and on the suffix in isolation",
+    technique="CBMC on the C07 streaming harness with flush requests (two symbolic segments, SYNC/FULL flush, output chunkings) plus the stateless raw FULL_FLUSH append harness and the constant-run shortcut with FULL_FLUSH/end_of_stream=0; reference decoder run on the prefix and on the suffix in isolation; white-box hash-head invariant (no head denotes a position before the last history reset)",
     text="When the flushing call returns with all input consumed and space left: output ends 00 00 FF FF on a byte boundary, the prefix decodes exactly to segment 1 without BFINAL, state is ZSTATE_NEW_HDR; after FULL_FLUSH the suffix decodes alone (no history) to segment 2; stateless raw FULL_FLUSH output is aligned, unterminated and appendable.",
     note="total input <= 3 (4) bytes, level 0: real back-references across a flush need >= 8 bytes and are outside; the history/hash reset logic is covered by C05's history invariant."),
  "C02": dict(
     engine="cbmc-c", category="model_checking", design_ref="DESIGN.md §5b C02",
-    technique="CBMC differential checking of igzip_inflate.c units against the independent RFC 1951 decoder: stored blocks through the real isal_inflate_stateless, the fixed-Huffman block decoder unit, set_codes vs RFC 3.2.2, trailer consumption; stream bytes symbolic",
-    text="Valid stored-block streams (<= 12 bytes) and fixed-Huffman blocks (<= 2 (3) bytes) decode to exactly the reference output with the exact end position and finished state; canonical code assignment equals RFC 3.2.2 for alphabets <= 4 (5..19 thorough); after the gzip/zlib trailer the reported input position is the true end of the stream.",
-    note="Whole isal_inflate on Huffman data, dynamic-table construction (code lengths up to 15, multi-symbol packing), and the _01/_04 assembly decoders are out of reach (measured). Output arena prefix 256 bytes (stated assumption for n >= 3)."),
+    technique="CBMC differential checking of igzip_inflate.c units against the independent RFC 1951 decoder: stored blocks through the real isal_inflate_stateless, the fixed-Huffman block decoder unit, set_codes vs RFC 3.2.2, the dynamic-header code-length loop (concrete prefix + symbolic tail, check-time source instrumentation), trailer consumption; stream bytes symbolic; thorough: the assembly decoders _01/_04 lifted to C (vlib/x86lift.py) under the same oracle",
+    text="Valid stored-block streams (<= 12 bytes) and fixed-Huffman blocks (<= 2 (3) bytes) decode to exactly the reference output with the exact end position and finished state; canonical code assignment equals RFC 3.2.2 for alphabets <= 4 (5..19 thorough); the code-length decoding loop of setup_dynamic_header (symbols 0-15, repeats 16/17/18 crossing the literal/distance boundary, histograms) equals RFC 3.2.7 for every 1-2 byte tail after a concrete prefix; "
+         "after the gzip/zlib trailer the reported input position is the true end of the stream.",
+    note="Whole isal_inflate on Huffman data and the lookup-table builders on symbolic code lengths (multi-symbol packing, long codes) are out of reach (measured). The assembly decoders are decided on 1 arbitrary byte per query (slow path only; the speculative main loop needs >= 8 input bytes and 274 bytes of output: no verdict). Output arena prefix 256 bytes (stated assumption for n >= 3)."),
  "C06": dict(
     engine="cbmc-c", category="model_checking", design_ref="DESIGN.md §5b C06",
-    technique="the C02 unit harnesses on ARBITRARY bytes (validity assumption dropped) + make_inflate_huff_code_dist/decode_next_dist with symbolic stale table contents; differential against the reference decoder",
+    technique="the C02 unit harnesses on ARBITRARY bytes (validity assumption dropped) + make_inflate_huff_code_dist/decode_next_dist with symbolic stale table contents; differential against the reference decoder; the assembly decoder decode_huffman_code_block_stateless_04 (thorough: + _01) lifted instruction by instruction to C at check time (vlib/x86lift.py) and decided by CBMC on an explicit address-space model",
     text="On arbitrary input bytes: only documented status codes, never more than avail_out written, success only if the reference decoder accepts with equal output; LEN/NLEN mismatch and BTYPE=3 => INVALID_BLOCK, symbols 286/287 and distance codes 30/31 => INVALID_SYMBOL, distance > produced => INVALID_LOOKBACK, truncation => END_INPUT; "
          "undefined distance codes are invalid whatever the lookup table held before.",
-    note="Same reach limits as C02: dynamic header code-length loop and table builders, inputs > 3 Huffman bytes, assembly decoders are outside."),
+    note="Same reach limits as C02: table builders on symbolic lengths, inputs > 3 Huffman bytes (assembly decoders: 1 byte, slow path only) are outside."),
  "C17": dict(
     engine="cbmc-c", category="model_checking", design_ref="DESIGN.md §5b C17",
     technique="CBMC: one-iteration match-finder harness for isal_deflate_finish_base with all loaded values arbitrary (loads/emission redirected by macros), zlib CINFO for all hist_bits/levels, dictionary API calls with SYMBOLIC dict_len <= 70000 and range-recording memcpy, hash priming",
@@ -124,7 +125,7 @@ CHECKS = {
     note="Match finder: holds with a constant hash function only (arbitrary hash: OOM); isal_deflate_body_base, ICF match finders, assembly bodies, end-to-end dictionary round trips are outside."),
  "C18": dict(
     engine="cbmc-c", category="model_checking", design_ref="DESIGN.md §5b C18",
-    technique="CBMC unit checks of huff_codes.c: run-length encoding of code lengths vs its expansion, packed length/distance tables vs the RFC 1951 symbol+extra-bit encoding for arbitrary codes, usability bound, isal_deflate_set_hufftables over all states",
+    technique="CBMC unit checks of huff_codes.c: run-length encoding of code lengths vs its expansion, packed length/distance tables vs the RFC 1951 symbol+extra-bit encoding for arbitrary codes, usability bound, isal_deflate_set_hufftables over all states, write_deflate_header_unaligned_stateless unit; engine B (x86sym) on the assembly heap primitives build_heap/build_huff_tree",
     text="rl_encode/write_rl reproduce every code-length sequence (<= 6 entries, 2-run sequences over 24, runs <= 300); packed (code, extra bits, length) equals the RFC encoding for symbolic length 3..258 / distance 1..32768 and arbitrary code words; set_hufftables is refused in every state != ZSTATE_NEW_HDR without side effects.",
     note="The tree construction (build_huff_tree/gen_huff_code_lens/fix_code_lens) is NOT decided: CBMC 6.11 mis-models struct heap_tree's anonymous union (sanity assertion fails in CBMC, passes natively; array-backed object OOM at 19 GB); isal_create_hufftables call sites, create_header, 286-symbol instances, assembly histogram collectors are outside."),
 }
